@@ -352,4 +352,100 @@ Proof.
     apply safe_ret. split; assumption.
 Qed.
 
+(* ------------------------------------------------------------------ pop_zeros as a loop: every read is inside the block *)
+Lemma strip_prefix ws : strip ws = firstn (length (strip ws)) ws /\ (forall j, (length (strip ws) <= j)%nat -> nth j ws 0 = 0).
+Proof.
+  induction ws as [|x r [IH1 IH2]]; cbn [strip]; [split; [reflexivity | intros j _; destruct j; reflexivity]|].
+  destruct (strip r) as [|y r'] eqn:E.
+  - destruct (Z.eqb_spec x 0) as [->|Hx]; cbn [length firstn].
+    + split; [reflexivity|]. intros [|k] _; [reflexivity|]. cbn [nth]. apply IH2. cbn [length]. lia.
+    + split; [reflexivity|]. intros [|k] Hk; [lia|]. cbn [nth]. apply IH2. cbn [length]. lia.
+  - cbn [length firstn]. split; [f_equal; exact IH1|]. intros [|k] Hk; [lia|]. cbn [nth]. apply IH2. cbn [length] in *. lia.
+Qed.
+
+Lemma strip_idem ws : strip (strip ws) = strip ws.
+Proof.
+  induction ws as [|x r IH]; cbn [strip]; [reflexivity|]. destruct (strip r) as [|y r'] eqn:E.
+  - destruct (Z.eqb_spec x 0) as [->|Hx]; cbn [strip]; [reflexivity|]. destruct (Z.eqb_spec x 0); [contradiction | reflexivity].
+  - change (strip (x :: y :: r')) with (match strip (y :: r') with [] => if x =? 0 then [] else [x] | r'' => x :: r'' end). rewrite IH. reflexivity.
+Qed.
+
+Lemma last_nth (l : list Z) : l <> [] -> last l 0 = nth (length l - 1) l 0.
+Proof.
+  induction l as [|x r IH]; intros H; [contradiction|]. destruct r as [|y r']; [reflexivity|].
+  change (last (x :: y :: r') 0) with (last (y :: r') 0). rewrite IH by discriminate. cbn [length]. replace (S (S (length r')) - 1)%nat with (S (length r' - 0))%nat by lia.
+  cbn [nth]. replace (S (length r') - 1)%nat with (length r' - 0)%nat by lia. reflexivity.
+Qed.
+
+Lemma nth_firstn_lt (l : list Z) : forall k j, (j < k)%nat -> nth j (firstn k l) 0 = nth j l 0.
+Proof.
+  induction l as [|x r IH]; intros k j H; [destruct k; destruct j; reflexivity|].
+  destruct k; [lia|]. destruct j; [reflexivity|]. cbn [firstn nth]. apply IH. lia.
+Qed.
+
+(** the word just above the normalized length is nonzero, every word above it is zero: the scan stops exactly there, and
+    (because it leaves when the length reaches 0) never reads index -1 *)
+Lemma pop_loop_ok fuel : forall ws ln m,
+  len (strip ws) <= ln <= len ws -> 1 <= ln -> ln - len (strip ws) < Z.of_nat fuel ->
+  pop_loop fuel ws (ln - 1) ln m = Ok (len (strip ws), m).
+Proof.
+  induction fuel as [|f IH]; intros ws ln m Hk H1 Hf; [lia|]. cbn [pop_loop]. unfold bind at 1.
+  destruct (strip_prefix ws) as [P1 P2]. unfold len in *.
+  unfold guard at 1. replace ((0 <=? ln - 1) && (ln - 1 <? Z.of_nat (length ws))) with true
+    by (symmetry; apply andb_true_intro; split; [apply Z.leb_le | apply Z.ltb_lt]; lia).
+  destruct (Z.eq_dec ln (Z.of_nat (length (strip ws)))) as [E|E].
+  - (* the top nonzero word *)
+    assert (strip ws <> []) as Hne by (intros E0; rewrite E0 in E; cbn in E; lia).
+    destruct (strip_cases ws) as [Hc|Hc]; [contradiction|].
+    assert (nth (Z.to_nat (ln - 1)) ws 0 = last (strip ws) 0) as En.
+    { rewrite (last_nth _ Hne). rewrite P1 at 2. rewrite nth_firstn_lt by (destruct (strip ws); [contradiction | cbn [length]; lia]).
+      f_equal. lia. }
+    rewrite En. destruct (Z.eqb_spec (last (strip ws) 0) 0); [contradiction|]. unfold ret. rewrite E. reflexivity.
+  - rewrite (P2 (Z.to_nat (ln - 1))) by lia. cbn [Z.eqb]. unfold bind at 1. unfold guard at 1.
+    replace (1 <=? ln) with true by (symmetry; apply Z.leb_le; lia). cbv zeta.
+    unfold gen4_pop_zeros_break. cbn [andb]. destruct (Z.eqb_spec (ln - 1) 0) as [E0|E0].
+    + unfold ret. f_equal. f_equal. lia.
+    + replace (ln - 1 - 1) with ((ln - 1) - 1) by lia. apply IH; lia.
+Qed.
+
+Theorem pop_zeros_asis_ok ws m : pop_zeros_asis ws m = Ok (strip ws, m).
+Proof.
+  unfold pop_zeros_asis. destruct (Z.ltb_spec 0 (len ws)) as [H|H].
+  - unfold bind. pose proof (strip_len ws) as Hl. pose proof (len_nonneg (strip ws)) as H0.
+    rewrite (pop_loop_ok (S (length ws)) ws (len ws) m); [|lia | lia | unfold len in *; lia].
+    unfold ret. destruct (strip_prefix ws) as [P1 _]. unfold len. rewrite Nat2Z.id. rewrite <- P1. reflexivity.
+  - destruct ws; [reflexivity|]. rewrite len_cons in H. pose proof (len_nonneg ws). lia.
+Qed.
+
+(** from_buffer with the scan spelled out is from_buffer *)
+Theorem from_buffer_g_ok b m : from_buffer_g w M b m = from_buffer w M b m.
+Proof.
+  unfold from_buffer_g, bind. rewrite pop_zeros_asis_ok. unfold from_buffer. cbn [setws bws]. rewrite strip_idem.
+  destruct (strip (bws b)) as [|x [|y [|z rest]]]; reflexivity.
+Qed.
+
+(* ------------------------------------------------------------------ a growth the allocator refuses *)
+Lemma wp_reallocate_raw_fail b F m Q : Own (bblk b :: F) m -> OQ F Q -> safe (reallocate_raw_fail b) m Q.
+Proof.
+  intros HO HQ. unfold reallocate_raw_fail, gen4_realloc_fail_frees.
+  apply safe_bind. apply safe_ret. apply safe_bind. eapply wp_drop; [exact HO|]. intros m1 HO1. apply safe_ret. apply HQ. exact HO1.
+Qed.
+
+Theorem wp_set_bit_fail a n F m Q :
+  Own (tblks a ++ F) m -> TargInv a -> is_ref a = false -> 0 <= n -> OQ F Q -> safe (set_bit_fail w M a n) m Q.
+Proof.
+  intros HO Ha Hr Hn HQ. destruct a as [d|b|d|ws]; cbn [set_bit_fail is_ref] in *; try discriminate.
+  - destruct (n <? 2 * w).
+    + eapply wp_done; [|exact HQ]. intros Q' HQ'. eapply (wp_set_bit w M w_pos M_big); eauto.
+    + apply safe_ret. apply HQ. exact HO.
+  - cbv zeta. destruct (Z.ltb_spec (n / w) (len (bws b))) as [Hlt|Hge].
+    + eapply wp_done; [|exact HQ]. intros Q' HQ'. eapply (wp_set_bit w M w_pos M_big); eauto.
+    + apply safe_bind. apply safe_guard; [apply Z.leb_le; lia|].
+      unfold default_capacity_chk. apply safe_bind. apply safe_bind. apply safe_guard12. intros _. apply safe_ret.
+      cbn [tblks app] in HO. eapply wp_reallocate_raw_fail; eauto.
+  - destruct (n <? 2 * w).
+    + eapply wp_done; [|exact HQ]. intros Q' HQ'. eapply (wp_set_bit w M w_pos M_big); eauto.
+    + apply safe_ret. apply HQ. exact HO.
+Qed.
+
 End Ops3Proofs.
